@@ -289,8 +289,11 @@ class InterTags(InterObject[Tags]):
             (tagname, source_target, dest_target), or None if no copying was
             done.
         """
+        # In-memory tag stores (MemoryTags) are not attached to a branch: there is
+        # nothing to lock and no master to update for them.
+        target_branch = getattr(self.target, "branch", None)
         with contextlib.ExitStack() as stack:
-            if self.source.branch == self.target.branch:
+            if target_branch is not None and self.source.branch == target_branch:
                 return {}, set()
             if not self.source.branch.supports_tags():
                 # obviously nothing to copy
@@ -312,8 +315,12 @@ class InterTags(InterObject[Tags]):
             # Ideally we'd improve this API to report the different conflicts
             # more clearly to the caller, but we don't want to break plugins
             # such as bzr-builddeb that use this API.
-            stack.enter_context(self.target.branch.lock_write())
-            master = None if ignore_master else self.target.branch.get_master_branch()
+            if target_branch is not None:
+                stack.enter_context(target_branch.lock_write())
+            if ignore_master or target_branch is None:
+                master = None
+            else:
+                master = target_branch.get_master_branch()
             if master is not None:
                 stack.enter_context(master.lock_write())
             updates, conflicts = self._merge_to(
